@@ -1,9 +1,9 @@
 """C16 -- Job dispatcher runs every job exactly once and always terminates.
 
 Proof: props/Properties_C16.v (job_conservation, worker_conservation, finish_only_when_done, root_matching,
-model_envelope, no_deadlock, progress_measure, bounded_work, can_finish, final_state, one_rank_per_job,
-final_check, rounds, rounds_exist) about the transition system coq/theories/Dispatch.v, for every number of
-jobs, ranks and rounds and every interleaving.
+link_capacity, model_envelope, no_deadlock, progress_measure, stutter_same, bounded_work, can_finish, final_state,
+one_rank_per_job, final_check, rounds, rounds_exist, candidates_complete) about the transition system
+coq/theories/Dispatch.v, for every number of jobs, ranks and rounds and every interleaving.
 
 Tie (correspondence, every run, against a libpomerol rebuilt from the working tree):
  (a) black box: harness/h_c16.cpp runs pMPI::mpi_skel (include_boss=true) and the documented master-only-root
@@ -503,7 +503,7 @@ def run(chk, only=None):
                     "proposed/hook-c16-dispatch-events.diff: the event lines are written where the actions happen",
                     "Open MPI 4.1.4 / Boost.MPI 1.83 behave as the model's MPI layer assumes (below)"]
     chk.assume += ["MPI: messages between a pair of ranks on one communicator are non-overtaking; an incoming message is matched with the "
-                   "earliest posted receive that admits its (source, tag); MPI_Send of these <= 4-byte messages completes without waiting "
+                   "earliest posted receive that accepts its (source, tag); MPI_Send of these <= 4-byte messages completes without waiting "
                    "for the receiver (a matching receive is in fact always pre-posted: shapes LSent/LFinSent/LDone); MPI_Cancel removes "
                    "an unmatched posted receive; MPI makes progress (a sent message is eventually reported by test())",
                    "boost::mpi::request::test() reports each completion once and returns an empty optional for null / already reported "
@@ -518,7 +518,7 @@ def run(chk, only=None):
     state = {"hook_absent": 0, "hook_present": 0, "replayed": 0, "events": 0, "launches": 0, "partial": [],
              "sorted_ok": 0, "sorted_bad": 0}
     wd = WATCHDOG["quick" if quick else "thorough"]
-    Pmax, Jmax, nseeds = (6, 12, 2) if quick else (16, 16, 4)
+    Pmax, Jmax, nseeds = (6, 12, 3) if quick else (16, 16, 4)
     batches = [(P, make_scenarios(chk, P, Jmax if P <= 8 else 12, nseeds if P <= 8 else 2)) for P in range(1, Pmax + 1)]
     splits = split_scenarios(chk)
     if only is not None:
@@ -564,7 +564,7 @@ def run(chk, only=None):
                                  "job_order_sorted_by_complexity": {"yes": state["sorted_ok"], "no": state["sorted_bad"]}}
     chk.rule = ("one case = one scenario (mode skel: mpi_skel::run, include_boss=true | noboss: master-only root, include_boss=false; J jobs with "
                 "random complexities 1..4; P ranks; R in 1..3 consecutive rounds on the same communicator; delay seed; max job delay 0/300/1500 us): "
-                "quick J=0..12 x P=1..6 x both modes x 2 seeds, thorough J=0..16 x P=1..16 x 4 seeds (2 for P>8); plus comm.split scenarios with "
+                "quick J=0..12 x P=1..6 x both modes x 3 seeds, thorough J=0..16 x P=1..16 x 4 seeds (2 for P>8); plus comm.split scenarios with "
                 "equal and with different round counts per group. Compared per round: executed exactly once, maps equal on all ranks, map names the "
                 "executing rank; with the hook the merged event trace is replayed through the extracted model. Signature = include_boss, P class, "
                 "J vs number of workers W, rounds, split. Every scenario counts as non-trivial; distinct = distinct canonical scenario incl. seed.")
